@@ -102,6 +102,7 @@ type rec struct {
 	toks   []string
 	idx    map[dkeyT]int
 	quiet  atomic.Bool // prologue of Copy (MapRoot / platform selection): not part of the copy trace
+	refs   []string    // the reference strings given to dst.Tag / dst.PushReference
 	pro    []int       // nodes read from the source in Copy's prologue (resolveRoot's FetchReference, MapRoot /
 	// platform selection): outside the transition system, but inside "one copy call" for C04's counters
 	srcIn  int
@@ -338,6 +339,11 @@ func (d *dstW) Exists(ctx context.Context, t ocispec.Descriptor) (bool, error) {
 
 func (d *dstW) push(ctx context.Context, t ocispec.Descriptor, rd io.Reader, ref string) error {
 	ctx = context.WithoutCancel(ctx)
+	if ref != "" {
+		d.r.mu.Lock()
+		d.r.refs = append(d.r.refs, ref)
+		d.r.mu.Unlock()
+	}
 	n := d.r.node(t)
 	isRef := 0
 	if ref != "" {
@@ -377,6 +383,9 @@ func (d *dstW) Push(ctx context.Context, t ocispec.Descriptor, rd io.Reader) err
 
 func (d *dstW) Tag(ctx context.Context, t ocispec.Descriptor, ref string) error {
 	ctx = context.WithoutCancel(ctx)
+	d.r.mu.Lock()
+	d.r.refs = append(d.r.refs, ref)
+	d.r.mu.Unlock()
 	n := d.r.node(t)
 	d.r.ev(fmt.Sprintf("TB.%d", n), 0, 1)
 	d.r.delayL(fmt.Sprintf("08.%d", n))
@@ -498,6 +507,7 @@ type Result struct {
 	DstMax   int
 	Widths, Taken []int // controlled schedule: number of parked operations at each step, and the choice made
 	ExtraTag bool  // the source reference also resolves in the destination although a different destination reference was given
+	Refs     []string // reference strings given to dst.Tag / dst.PushReference
 	Pro      []int // nodes read from the source in the prologue
 	Keff     int
 	Root2    int // the root after MapRoot / platform selection (ground truth), -1 if the prologue must fail
@@ -866,7 +876,7 @@ func Execute(c *Case) *Result {
 		}()
 		select {
 		case <-done:
-		case <-time.After(40 * time.Second):
+		case <-time.After(20 * time.Second):
 			res.Hang = true
 			r.mu.Lock()
 			res.Toks = append([]string(nil), r.toks...)
@@ -881,6 +891,7 @@ func Execute(c *Case) *Result {
 	}
 	res.Toks = r.toks
 	res.Pro = r.pro
+	res.Refs = r.refs
 	if r.sched != nil {
 		res.Widths, res.Taken = r.sched.widths, r.sched.taken
 	}
@@ -993,7 +1004,7 @@ func ModelInput(res *Result) string {
 		mode += "m"
 	}
 	mode += "/" + c.cbBits()
-	pre := linksField(g) + prologueField(res) + rflField(g)
+	pre := linksField(g) + prologueField(res) + rflField(g) + refsField(res)
 	if c.PreTag >= 0 && (c.Mode == "t" || c.Mode == "r") {
 		pre += fmt.Sprintf("pt=%d ", c.PreTag)
 	}
@@ -1045,6 +1056,21 @@ func prologueField(res *Result) string {
 	}
 	r0 := g.Nodes[c.Root]
 	return fmt.Sprintf("pr=%d:%d:%d:%s:%s:%d:%d:%d:%s ", b2i(c.RefFetch), c.Root, mapped, kind, cfg, ok, b2i(r0.IsManifest()), b2i(len(r0.Bytes) == 0), o)
+}
+
+// refsField renders the source / destination reference of a Copy and every reference string the
+// destination was asked to set, for the in-Coq comparison with CopyTop.eff_ref:
+// rs=<hex srcRef>:<hex dstRef|->:<hex used ref>+...
+func refsField(res *Result) string {
+	c := res.Case
+	if (c.Mode != "t" && c.Mode != "r") || len(res.Refs) == 0 {
+		return ""
+	}
+	u := make([]string, len(res.Refs))
+	for i, x := range res.Refs {
+		u[i] = common.Hex(x)
+	}
+	return fmt.Sprintf("rs=%s:%s:%s ", common.Hex(c.SrcRef), common.Hex(c.DstRef), strings.Join(u, "+"))
 }
 
 // rflField runs the real removeForeignLayers (verif hook) on a copy of every node's successor
